@@ -217,6 +217,8 @@ TFilter ==
         \cup Chk(Ev.noob = 0, "C17.out_in_box")
         \cup Chk(Ev.ndup = 0, "C17.out_distinct")
         \cup Chk(Ev.nalready = 0, "C17.out_not_already_evaluated")
+        (* the filter is handed the whole evaluation log, not a prefix of it *)
+        \cup Chk(Ev.whole, "C17.filter_sees_whole_log")
         \cup Chk(Ev.ninfeas = 0, "C17.out_feasible")
         \cup Chk(Ev.nalien = 0, "C17.out_from_input"))
 
